@@ -8,7 +8,7 @@ SRC=$1; CID=$2; shift 2; EXTRA="$*"
 W=/tmp/seedrun_$$_$CID
 git -C /repo worktree add -f $W HEAD -q || exit 2
 trap "git -C /repo worktree remove --force $W >/dev/null 2>&1" EXIT
-OUT=/verif/seeded/$CID; mkdir -p $OUT
+OUT=/verif/seeded/${OUTNAME:-$CID}; mkdir -p $OUT
 cp $SRC/patch.diff $SRC/demo.py $OUT/ ; cp $SRC/meta.json $OUT/meta.author.json
 cd $W
 PYTHONPATH=$W /venv/bin/python -W ignore $OUT/demo.py > $OUT/demo_clean.log 2>&1; RC0=$?
